@@ -27,6 +27,7 @@ func runC15(c *Ctx) {
 	}
 	c15Concurrent(c)
 	c15FailedWrite(c)
+	c15RepeatedConnAck(c)
 	c15CallerSupplied(c)
 	c15Mixed(c)
 	c15ThroughRetryClient(c)
@@ -565,4 +566,68 @@ func c15AbandonedThenWrap(c *Ctx) {
 			c.Explore(sc)
 		}
 	}
+}
+
+// (b”) a CONNACK repeated by the peer in the middle of a connection (the client tolerates it)
+// must not disturb the allocator: requests issued before and after it stay distinct.
+func c15RepeatedConnAck(c *Ctx) {
+	c.Bound("repeated-connack", "two requests outstanding (kinds {p1,p2,sub,unsub} each), then the peer repeats CONNACK, then two more requests; nothing is acknowledged; identifiers of all four distinct and non-zero; counter start in {41, 0xFFFD}")
+	kinds := []string{"p1", "p2", "sub", "unsub"}
+	issue := func(cli *mqtt.BaseClient, ctx vctx.Context, k, tag string) {
+		switch k {
+		case "p1":
+			cli.Publish(ctx, &mqtt.Message{Topic: "t", QoS: mqtt.QoS1, Payload: []byte(tag)})
+		case "p2":
+			cli.Publish(ctx, &mqtt.Message{Topic: "t", QoS: mqtt.QoS2, Payload: []byte(tag)})
+		case "sub":
+			cli.Subscribe(ctx, mqtt.Subscription{Topic: tag, QoS: mqtt.QoS1})
+		case "unsub":
+			cli.Unsubscribe(ctx, tag)
+		}
+	}
+	var net *env.Net
+	sc := &vrt.Scenario{
+		Name: "C15/repeated-connack",
+		Cfg:  vrt.Config{Horizon: int64(30 * time.Second)},
+		Body: func() {
+			net = env.NewNet()
+			s := env.NewScript(net)
+			s.AutoConnAck = true
+			cli := &mqtt.BaseClient{Transport: s.Conn}
+			st := []int32{41, 0xFFFD}[vrt.Choose(vrt.KFree, 2, "start")]
+			vrt.W.RandInt31n = func(n int32) int32 { return st - 1 }
+			if _, err := cli.Connect(vctx.Background(), "c15"); err != nil {
+				vrt.Failf("harness", "connect: %v", err)
+				return
+			}
+			ctx, cancel := vctx.WithCancel(vctx.Background())
+			for i := 0; i < 4; i++ {
+				if i == 2 {
+					s.Send(env.EncConnAck(false, 0))
+					vrt.Settle()
+				}
+				k := kinds[vrt.Choose(vrt.KFree, len(kinds), "kind")]
+				tag := fmt.Sprintf("r%d", i)
+				vrt.Go("req-"+tag, func() { issue(cli, ctx, k, tag) })
+				vrt.Settle()
+			}
+			seen := map[uint16]string{}
+			for _, p := range s.Got {
+				if p.Type != env.PUBLISH && p.Type != env.SUBSCRIBE && p.Type != env.UNSUBSCRIBE {
+					continue
+				}
+				if p.ID == 0 {
+					vrt.Failf("c15/zero-id", "a request carries identifier 0: %s", p)
+				}
+				if prev, ok := seen[p.ID]; ok {
+					vrt.Failf("c15/duplicate-outstanding-id", "identifier %d is carried by two outstanding requests (%s and %s); the peer had repeated CONNACK in between", p.ID, prev, p)
+				}
+				seen[p.ID] = p.String()
+			}
+			cancel()
+			vrt.Quiesce()
+		},
+		Observe: func() uint64 { return net.TraceHash() },
+	}
+	c.Explore(sc)
 }
